@@ -222,7 +222,11 @@ impl Circle2 {
         let cd = (temp - p2.x.powi(2) - p2.y.powi(2)) / 2.0;
         let det = (p0.x - p1.x) * (p1.y - p2.y) - (p1.x - p2.x) * (p0.y - p1.y);
 
-        if det.abs() < 1.0e-6 {
+        // Collinearity is judged relative to the size of the triangle: the determinant is the
+        // product of the two leg lengths and the sine of the angle between them, so an absolute
+        // threshold would reject well-formed triples of closely spaced points
+        let legs = (p0 - p1).norm() * (p1 - p2).norm();
+        if det.abs() <= 1.0e-6 * legs {
             Err("Points are collinear".into())
         } else {
             let cx = (bc * (p1.y - p2.y) - cd * (p0.y - p1.y)) / det;
